@@ -16,7 +16,7 @@ def main():
     edges = collect_edges(MODULES, a.tier, cap=12 if quick else 48, depth2=1 if quick else 6,
                           select=sel, nshards=4)
     with scratch() as d:
-        decide_edges(rep, edges, {"differ", "cfg"}, stepbound=6000 if quick else 50000, workdir=d)
+        decide_edges(rep, edges, {"differ", "uninit", "cfg"}, stepbound=6000 if quick else 50000, workdir=d)
     rep.cov["rule"] = ("one case = one derivation edge (corpus procedure, real primitive, cursor, arguments) accepted by exo; "
                        "distinct = distinct derived IR (canonical hash), non-trivial = derived IR differs from source; "
                        "each run on every admissible input of the bounded domain by TLC (ExoMachine phases A/B)")
